@@ -13,6 +13,7 @@ From Coq Require Import List String Bool Arith ZArith Lia.
 From EKW Require Import Graph.GStore Graph.ExportCheck Graph.Denote Graph.Engine Graph.EngineProofs.
 From EKW Require Import Graph.Copy Graph.Rename Graph.CopyProofs Graph.Dedup Graph.DedupProofs.
 From EKW Require Import Graph.Split Graph.SplitProofs Graph.Expand Graph.ExpandProofs Graph.Fuse Graph.FuseProofs.
+From EKW Require Import Graph.EngineFuel Graph.EngineFuelAll.
 From EKW Require Import Graph.EngineCheck.
 Import ListNotations.
 Open Scope string_scope.
@@ -89,30 +90,60 @@ Proof.
   exact (split_rejoin_sem P V interp K keqb key cut_name (heap g) Ht g r eq_refl H).
 Qed.
 
-(* split: the remaining claims of the property, stated in full.  They are checked on every
-   generated case by the Python oracle (identity-based: each input node lies in exactly one
-   part, the part of its key; the reported cuts are exactly the cross-part edges; the sink
-   and source of a cut carry its name and sit in the source / destination part) and by the
-   correspondence (parts, cuts and the whole result heap are compared with the model's);
-   they are not proved. *)
-Definition C11_split_partition_statement : Prop :=
-  forall (P K : Type) (keqb : K -> K -> bool) (key : node P -> K) (cut_name : cutedge K -> string)
-         (g : graph P) (r : splitres P K),
-  topo (heap g) -> split_graph keqb key cut_name g = Ok r ->
+(* split, for any key function whose == is equality: a node of the result is reachable from
+   the sinks of at most one part (the parts are disjoint; that every input sink lies in a
+   part is in C11_split_rejoin) *)
+Theorem C11_split_partition :
+  forall (P K : Type) (keqb : K -> K -> bool), (forall a b, keqb a b = true <-> a = b) ->
+  forall (key : node P -> K) (cut_name : cutedge K -> string) (g : graph P) (r : splitres P K),
+  split_graph keqb key cut_name g = Ok r ->
   forall x k1 ss1 k2 ss2, In (k1, ss1) (rparts r) -> In (k2, ss2) (rparts r) ->
     reachable (rheap r) ss1 x -> reachable (rheap r) ss2 x -> (k1, ss1) = (k2, ss2).
+Proof.
+  intros P K keqb Hk key cut_name g r H.
+  exact (split_partition P K keqb Hk key cut_name (heap g) g r eq_refl H).
+Qed.
 
-Definition C11_split_cuts_exact_statement : Prop :=
+(* split: one (sink, source) pair per reported cut edge, in order: both carry the cut's name,
+   the sink has no outputs, is fed through "input" by output c_sout of the node called
+   c_snode and is listed among the sinks of the source part; the source has no inputs and a
+   default output (cut_ok, Graph/SplitProofs.v).  That the reported cuts are exactly the
+   cross-part edges of the input is checked by the oracle, not proved. *)
+Theorem C11_split_cuts_exact_partial :
   forall (P K : Type) (keqb : K -> K -> bool) (key : node P -> K) (cut_name : cutedge K -> string)
          (g : graph P) (r : splitres P K),
-  topo (heap g) -> split_graph keqb key cut_name g = Ok r ->
-  List.length (rpairs r) = List.length (rcuts r) /\
-  Forall2 (fun c pr =>
-     exists snk src, nth_error (rheap r) (fst pr) = Some snk /\ nth_error (rheap r) (snd pr) = Some src /\
-       nname snk = cut_name c /\ nname src = cut_name c /\ nouts snk = [] /\ nins src = [] /\
-       (exists p, nins snk = [("input", (p, c_sout c))] /\ name_of (rheap r) p = c_snode c) /\
-       (exists ss, In (c_skey c, ss) (rparts r) /\ In (fst pr) ss))
-    (rcuts r) (rev (rpairs r)).
+  split_graph keqb key cut_name g = Ok r ->
+  Forall2 (cut_ok P K keqb cut_name (rheap r) (rparts r)) (rcuts r) (rev (rpairs r)).
+Proof.
+  intros P K keqb key cut_name g r H.
+  exact (split_cuts_exact P K keqb key cut_name (heap g) g r eq_refl H).
+Qed.
+
+(* the model's fuel suffices: on an acyclic graph with valid sinks no transformation
+   answers "model:OutOfFuel" (so `f g = Ok g'` above only excludes Python exceptions and the
+   out-of-domain markers) *)
+Theorem C11_engine_fuel_sufficient :
+  forall (P St R Ou : Type) (visit : St -> nat -> node P -> list (string * Ou) -> res (St * R))
+         (output : St -> R -> string -> res Ou) (h : list (node P)),
+  topo h -> (forall st n nd inputs, visit st n nd inputs <> Err OOF) ->
+  (forall st r o, output st r o <> Err OOF) ->
+  forall sinks st, Forall (fun s => s < List.length h) sinks -> transform visit output h sinks st <> Err OOF.
+Proof. exact transform_fuel. Qed.
+
+Theorem C11_fuel_all :
+  forall (P : Type) (g : graph P), topo (heap g) -> valid_sinks g ->
+  copy_graph g <> Err OOF /\
+  (forall func, rename_nodes func g <> Err OOF) /\
+  (forall pred, deduplicate_nodes pred g <> Err OOF) /\
+  (forall K keqb (key : node P -> K) cut_name, split_graph keqb key cut_name g <> Err OOF) /\
+  (forall func, fuse_nodes func g <> Err OOF) /\
+  (forall expander, (forall nd sub imap omap, expander nd = Some (sub, imap, omap) -> topo (heap sub) /\ valid_sinks sub) ->
+                    expand_graph expander g <> Err OOF).
+Proof.
+  intros P g Ht Hs. split; [now apply copy_fuel|]. split; [intros; now apply rename_fuel|].
+  split; [intros; now apply dedup_fuel|]. split; [intros; now apply split_fuel|].
+  split; [intros; now apply fuse_fuel|]. intros; now apply expand_fuel.
+Qed.
 
 (* expand_graph: a consumer of output o of an expanded node is wired to the default output
    of the leaf registered under output_map[o] ... *)
@@ -290,6 +321,19 @@ Proof.
   - eexists. eexists. split; [vm_compute; reflexivity|]. split; reflexivity.
 Qed.
 
+(* the hypotheses of the fuel and partition theorems hold for g_ex / string keys *)
+Example C11_fuel_nonvacuous : topo (heap g_ex) /\ valid_sinks g_ex /\ exists g', copy_graph g_ex = Ok g'.
+Proof.
+  split; [apply topob_topo; reflexivity|]. split; [repeat constructor; simpl; lia|].
+  eexists. vm_compute. reflexivity.
+Qed.
+
+Example C11_split_partition_nonvacuous :
+  (forall a b, String.eqb a b = true <-> a = b) /\
+  exists r, split_graph String.eqb (kfun_apply KHead) (fun c => c_dnode c) g_ex = Ok r /\
+            List.length (rparts r) = 3 /\ List.length (rpairs r) = 3.
+Proof. split; [exact String.eqb_eq|]. eexists. split; [vm_compute; reflexivity|]. split; reflexivity. Qed.
+
 Print Assumptions C11_copy_preserves.
 Print Assumptions C11_rename_preserves.
 Print Assumptions C11_dedup_preserves.
@@ -299,3 +343,7 @@ Print Assumptions C11_expand_wiring.
 Print Assumptions C11_expand_leaves.
 Print Assumptions C11_expand_preserves_partial.
 Print Assumptions C11_fuse_preserves.
+Print Assumptions C11_split_partition.
+Print Assumptions C11_split_cuts_exact_partial.
+Print Assumptions C11_engine_fuel_sufficient.
+Print Assumptions C11_fuel_all.
